@@ -6,7 +6,8 @@
 (* The input names its intended chemistry: `mols` (sequence of sequences   *)
 (* of asymmetric-unit indices) and `bonds` (pairs of indices), all atoms   *)
 (* on general positions.  A table  <<za, zb, lo, hi>>  (grid units^2, from *)
-(* the library's own covalent radii) defines bonding:  bonded iff          *)
+(* the covalent radii CovRadius100 held here, +0.4 A, -+0.08 A guard band; *)
+(* certified by ThresholdsOK) defines bonding:  bonded iff                 *)
 (* Dist2N <= lo;  the domain guard ContactsClear demands that every pair   *)
 (* of atoms of the infinite crystal is either an image of an intended bond *)
 (* (<= lo) or clearly non-bonded (> hi) -- evaluated from the asymmetric   *)
@@ -26,6 +27,31 @@ Hi(tbl, za, zb) == ThrRow(tbl, za, zb)[4]
 MaxHi(tbl) == CHOOSE m \in {r[4] : r \in SeqToSet(tbl)} : \A r \in SeqToSet(tbl) : r[4] <= m
 IntendedBonded(bonds, a, b) == <<a, b>> \in SeqToSet(bonds) \/ <<b, a>> \in SeqToSet(bonds)
 FloorDiv(x, N) == x \div N           \* TLC: floors for N > 0
+
+(* ---- chemistry held by the specification --------------------------------- *)
+(* covalent radii (CSD, 1/100 A) and standard atomic weights (1/1000 u) of the elements test molecules are made of *)
+CovRadius100 == [z \in {1, 6, 7, 8, 9, 14, 15, 16, 17, 35, 53} |->
+   CASE z = 1 -> 23 [] z = 6 -> 68 [] z = 7 -> 68 [] z = 8 -> 68 [] z = 9 -> 64 [] z = 14 -> 120 [] z = 15 -> 105
+     [] z = 16 -> 102 [] z = 17 -> 99 [] z = 35 -> 121 [] z = 53 -> 140]
+Mass1000 == [z \in DOMAIN CovRadius100 |->
+   CASE z = 1 -> 1008 [] z = 6 -> 12011 [] z = 7 -> 14007 [] z = 8 -> 15999 [] z = 9 -> 18998 [] z = 14 -> 28086 [] z = 15 -> 30974
+     [] z = 16 -> 32065 [] z = 17 -> 35453 [] z = 35 -> 79904 [] z = 53 -> 126904]
+BondTol100 == 40
+GuardBand100 == 8
+(* a row <<za, zb, lo, hi>> of the threshold table in grid units^2 on a grid of N points per cell edge whose Gram unit is
+   u^2 = u2m * 1e-6 A^2:  lo <= ((T - band)/100)^2 N^2 / u^2  and  hi >= ((T + band)/100)^2 N^2 / u^2  with T the sum of the two
+   radii plus the bonding tolerance; neither looser than that by more than 2 grid units^2 *)
+ThrRowOK(r, N, u2m) ==
+  /\ r[1] \in DOMAIN CovRadius100 /\ r[2] \in DOMAIN CovRadius100
+  /\ LET T == CovRadius100[r[1]] + CovRadius100[r[2]] + BondTol100
+         xlo == BMulInt(BFromInt((T - GuardBand100) * (T - GuardBand100)), N * N * 100)      \* x u2m
+         xhi == BMulInt(BFromInt((T + GuardBand100) * (T + GuardBand100)), N * N * 100)
+         U == BFromInt(u2m)
+     IN /\ r[3] >= 0 /\ r[4] > r[3]
+        /\ BLe(BMulInt(U, r[3]), xlo) /\ BLt(xlo, BMulInt(U, r[3] + 3))
+        /\ BLe(xhi, BMulInt(U, r[4])) /\ BLt(BMulInt(U, r[4] - 3), xhi)
+ThresholdsOK(tbl, N, u2m) == u2m > 0 /\ \A i \in DOMAIN tbl : ThrRowOK(tbl[i], N, u2m)
+MassesOK(mass) == \A i \in DOMAIN mass : mass[i][1] \in DOMAIN Mass1000 /\ mass[i][2] = Mass1000[mass[i][1]]
 
 (* every atom within sqrt(MaxHi) of an atom lies in the 27 cells around that atom's cell *)
 ReachCertificate(G, tbl, N) ==
